@@ -41,6 +41,9 @@ func genCount(t *rapid.T, chunk int) int {
 func genHistory(concurrent bool) func(t *rapid.T) mx.History {
 	return func(t *rapid.T) mx.History {
 		h := mx.History{Chunk: rapid.IntRange(1, 8).Draw(t, "chunk"), Struct: rapid.Bool().Draw(t, "struct"), AutoClear: rapid.Bool().Draw(t, "auto-clear"), Concurrent: concurrent}
+		if rapid.IntRange(0, 5).Draw(t, "awkward-names") == 3 {
+			h.Names = rapid.IntRange(1, 4).Draw(t, "names")
+		}
 		if rapid.IntRange(0, 24).Draw(t, "large-runs") == 0 {
 			// runs larger than the 4 KiB read buffer of the gob decoder: file reads then happen during Pull
 			h.Chunk = rapid.IntRange(150, 400).Draw(t, "large-chunk")
